@@ -10,6 +10,9 @@ property whose anchor file contains it.
     update under the second are not atomic.
  H3 swallowed error: the Err outcome of a workspace call reaches a non-error return of the enclosing function (the
     error is logged or ignored instead of propagated).
+ H4 process-wide state: a `static` (incl. lazy / thread-local cells) in a crate the property is anchored in, other than
+    tracing call sites, protobuf descriptors and metrics registries - a decision or verification result remembered in
+    process-wide state is shared by every caller, chain, epoch and committee that runs in the process.
 """
 import json, os
 from engine import query as Q
@@ -99,17 +102,39 @@ def sites(ctx, files):
     return out
 
 
+CRATE_DIR = {"zksync_concurrency": "libs/concurrency/", "zksync_consensus_crypto": "libs/crypto/", "zksync_consensus_engine": "libs/engine/", "zksync_protobuf": "libs/protobuf/",
+             "zksync_protobuf_build": "libs/protobuf_build/", "zksync_consensus_roles": "libs/roles/", "zksync_consensus_utils": "libs/utils/", "zksync_consensus_bft": "components/bft/",
+             "zksync_consensus_network": "components/network/", "zksync_consensus_executor": "components/executor/"}
+
+
+def static_sites(ctx, files):
+    """process-wide state (H4) declared in the crates that contain one of `files`"""
+    crates = set(c for c, d in CRATE_DIR.items() if any(f.startswith(d) for f in files))
+    out = []
+    for path, c in sorted(ctx.F.consts.items()):
+        if c.get("dk") != "Static":
+            continue
+        cr = path.lstrip("<").split("::", 1)[0]
+        if cr not in crates:
+            continue
+        ty = c.get("ty", "")
+        if "__CALLSITE" in path or path.endswith("::META") or "descriptor::INIT" in path or "register_metric" in path or ty.startswith("vise::") or "::testonly::" in path:
+            continue
+        out.append(("static-state", path, None, "static %s : %s" % (path.rsplit("::", 1)[-1], ty[:80])))
+    return out
+
+
 def rule_hazards(ctx):
     R = "H"
     prop = ctx.prop
-    ctx.rule(R, "hazard inventory in the files this property is anchored in: take-then-await (state moved out of a field with an await still ahead), double lock of one mutex in a function, error of a workspace call swallowed - every site must be in the reviewed table (tables/hazards.json)")
+    ctx.rule(R, "hazard inventory in the files this property is anchored in: take-then-await (state moved out of a field with an await still ahead), double lock of one mutex in a function, error of a workspace call swallowed, process-wide statics in the anchored crates - every site must be in the reviewed table (tables/hazards.json)")
     files = anchor_files(prop)
     tab = ctx.table("hazards.json")["sites"]
     allowed = {}
     for e in tab:
         allowed[(e["kind"], e["key"])] = e
     found = {}
-    for kind, key, where, detail in sites(ctx, files):
+    for kind, key, where, detail in sites(ctx, files) + static_sites(ctx, files):
         found.setdefault((kind, key), []).append((where, detail))
     n = 0
     # a reviewed site that moved into another function (helper extracted / renamed): same kind and same field / callee,
@@ -135,11 +160,14 @@ def rule_hazards(ctx):
             elif spare.get((kind, key.split(" | ", 1)[-1]), 0) > 0:
                 spare[(kind, key.split(" | ", 1)[-1])] -= 1
                 ctx.ob(R, "%s %s (moved)" % (kind, key), True, "re-matched as moved from a reviewed site with the same kind and field/callee", where)
+            elif kind == "static-state" and any(e2["kind"] == "static-state" and e2["key"] not in ctx.F.consts and e2.get("ty") == detail.split(" : ", 1)[-1] for e2 in tab):
+                ctx.ob(R, "%s %s (moved)" % (kind, key), True, "re-matched as a renamed / moved reviewed static of the same type", where)
             else:
                 ctx.ob(R, "%s %s" % (kind, key), False, "new %s site (%s): not in the reviewed hazard table - %s" % (kind, detail, {
                     "take-then-await": "if the await is cancelled, the state that was moved out is lost",
                     "double-lock": "a decision made under the first acquisition can be stale when the second one acts on it",
-                    "swallowed-error": "the caller continues as if the operation had succeeded"}[kind]), where)
+                    "swallowed-error": "the caller continues as if the operation had succeeded",
+                    "static-state": "what it remembers is shared by every caller in the process (all chains, epochs, committees, connections)"}[kind]), where)
     ctx.counts["H:sites in scope"] = n
 
 
